@@ -1,20 +1,26 @@
 /- `drv_c20 flow <dumpfile>`: evaluate the hypotheses of the label-height theorems
-   (C20_function_flow_partial, Props/C20.lean) on every function of a real AST dump, and the
-   conclusion on the code the model generates for it.  One line per function that gets code:
-     fn <name> typed <0|1> flow <0|1> udistinct <0|1> distinct <0|1> x87need <n> check <ok|range|FAIL> <why>
+   (C20_function_flow_partial, C20_function_check_partial, Props/C20.lean) on every function of a real
+   AST dump, and the conclusions on the code the model generates for it.  One line per function that
+   gets code:
+     fn <name> typed <0|1> flow <0|1> tdistinct <0|1> udistinct <0|1> distinct <0|1> x87need <n> check <ok|range|FAIL> <why>
    `typed`     = `typedS env body`           (typing side condition)
    `flow`      = `flowFn env body`           (scope: jumps stay in their region, return agrees with
                                               the return type, no empty struct argument, label spelling)
-   `udistinct` = `userDistinct code`         (the parser's labels occur once each in the code: the one
-                                              hypothesis of the theorem about the code)
+   `tdistinct` = `treeDistinct body`         (the labels parse.c gave the loops, switches, cases and
+                                              labelled statements of the TREE are pairwise distinct:
+                                              the last hypothesis of the theorems — about the tree, not
+                                              about the emitted lines)
+   `udistinct` = `userDistinct code`         (the parser's labels occur once each in the code: PROVED from
+                                              flow and tdistinct — C20_parser_labels_distinct)
    `distinct`  = `labelsDistinct (retLabel env) code`   (all labels of the code are pairwise distinct:
                                               PROVED from typed, flow, udistinct — Lemmas/C20Fresh.lean)
    `x87need`   = `x87Need body`              (x87 registers the evaluation needs; > 8 is the region of
                                               known finding C20-x87-depth-overflow)
    `check`     = `Effect.checkBody code`: ok, `range` (a height left the range `rsp ≤ 0`, `0 ≤ x87 ≤ 8`:
-                 outside what the theorem states), or FAIL with the reason.
-   When typed, flow and udistinct are all 1 the theorems say distinct = 1 and the code has a labelling
-   that passes `verifyL`; `distinct 0` or `check FAIL` on such a function would contradict them. -/
+                 outside what the label-height theorem states), or FAIL with the reason.
+   When typed, flow and tdistinct are all 1 the theorems say udistinct = 1, distinct = 1 and check is ok
+   or range (C20_function_check_partial: no other complaint is possible); anything else on such a
+   function would contradict them. -/
 import ChibiVerif.Model.Codegen
 import ChibiVerif.Model.Effect
 import ChibiVerif.Model.C20Scope
@@ -41,7 +47,7 @@ def flowFns (p : Ast.Program) : List Ast.Obj → Codegen.St → IO Unit
         let chk := match Effect.checkBody ls with
           | .ok () => "ok"
           | .error why => if isRange why then s!"range {why}" else s!"FAIL {why}"
-        IO.println s!"fn {Codegen.cstr fn.v.name} typed {b (typedS env fn.body)} flow {b (flowFn env fn.body)} udistinct {b (userDistinct ls)} distinct {b (labelsDistinct (retLabel env) ls)} x87need {x87Need fn.body} check {chk}"
+        IO.println s!"fn {Codegen.cstr fn.v.name} typed {b (typedS env fn.body)} flow {b (flowFn env fn.body)} tdistinct {b (treeDistinct fn.body)} udistinct {b (userDistinct ls)} distinct {b (labelsDistinct (retLabel env) ls)} x87need {x87Need fn.body} check {chk}"
         flowFns p rest s'
 
 def flowMain (args : List String) : IO UInt32 := do
